@@ -18,6 +18,7 @@ import (
 	"github.com/obolnetwork/charon/cluster"
 	"github.com/obolnetwork/charon/dkg"
 	"github.com/obolnetwork/charon/dkg/bcast"
+	"github.com/obolnetwork/charon/dkg/pedersen"
 	"github.com/obolnetwork/charon/dkg/share"
 	"github.com/obolnetwork/charon/p2p"
 	"github.com/obolnetwork/charon/tbls"
@@ -43,12 +44,22 @@ func body(c *kernel.Ctx) {
 	ctx, cancel := context.WithCancel(context.Background())
 	defer cancel()
 	ceremonies := 1 + verifrt.Intn("cfg", 2)
+	// repeated ceremonies run on the same hosts and network: straggling (re-delivered) messages of an
+	// earlier ceremony reach the handlers of the next one and must not influence it
+	net := simnet.New()
 	for cer := 0; cer < ceremonies; cer++ {
-		ceremony(ctx, c, cer)
+		ceremony(ctx, c, cer, net)
 	}
 }
 
-func ceremony(ctx context.Context, c *kernel.Ctx, cer int) {
+// stragglersNext counts long-delayed duplicates sent so far in this run: they may reach a later ceremony.
+var stragglersNext int
+
+func ceremony(ctx context.Context, c *kernel.Ctx, cer int, net *simnet.Net) {
+	if cer == 0 {
+		stragglersNext = 0
+	}
+	stragglers := stragglersNext // sent by earlier ceremonies of this run
 	n := 3 + verifrt.Intn("cfg", 6)   // 3..8
 	t := 2 + verifrt.Intn("cfg", n-1) // 2..n
 	if c.Tier != "thorough" && n > 6 {
@@ -58,16 +69,34 @@ func ceremony(ctx context.Context, c *kernel.Ctx, cer int) {
 		}
 	}
 	vals := 1 + verifrt.Intn("cfg", 4)
+	algo := "frost"
+	if verifrt.Intn("cfg", 3) == 2 || c.Mode == "pedersen" {
+		algo = "pedersen"
+		if n > 5 {
+			n, t = 4, 3
+		}
+		if vals > 2 {
+			vals = 2
+		}
+	}
+	if c.Mode == "frost" {
+		algo = "frost"
+	}
 	maxDelay := 1 + verifrt.Intn("cfg", 200)
 	dupPct := []int{0, 10}[verifrt.Intn("cfg", 2)]
-	c.Set(fmt.Sprintf("ceremony%d", cer), fmt.Sprintf("n=%d t=%d validators=%d maxDelayMs=%d dup%%=%d", n, t, vals, maxDelay, dupPct))
+	c.Set(fmt.Sprintf("ceremony%d", cer), fmt.Sprintf("%s n=%d t=%d validators=%d maxDelayMs=%d dup%%=%d", algo, n, t, vals, maxDelay, dupPct))
+	verifrt.Probe("algo:" + algo)
 
-	net := simnet.New()
 	net.Fate = func(e *simnet.Envelope) simnet.Fate {
 		f := simnet.Fate{Delay: time.Duration(verifrt.Intn("n", maxDelay)) * time.Millisecond}
 		if !e.Response && dupPct > 0 && verifrt.Intn("n", 100) >= 100-dupPct {
 			f.Duplicate = true
 			f.DupDelay = time.Duration(verifrt.Intn("n", 3*maxDelay)) * time.Millisecond
+			if verifrt.Intn("n", 4) == 3 {
+				f.DupDelay = time.Duration(1+verifrt.Intn("n", 90)) * time.Second // a straggler that may outlive this ceremony
+				verifrt.Fault("straggler-duplicate")
+			}
+			stragglersNext++ // any re-delivery may arrive after this ceremony has ended
 			verifrt.Fault("duplicate")
 		}
 		if f.Delay > 0 {
@@ -91,17 +120,28 @@ func ceremony(ctx context.Context, c *kernel.Ctx, cer int) {
 	// All hosts and handlers are registered before anybody sends (the real ceremony synchronises
 	// on the sync protocol first).
 	type node struct {
-		h  *simnet.Host
-		tp any
+		h     *simnet.Host
+		tp    any
+		pcfg  *pedersen.Config
+		board *pedersen.Board
 	}
 	nodes := make([]node, n)
 	for i := 0; i < n; i++ {
 		h := net.NewHost(ids[i], fmt.Sprintf("c%dn%d", cer, i))
-		tp, err := dkg.VerifFrostTransport(h, peers, bcast.New(h, ids, key(i), session), t, vals)
+		caster := bcast.New(h, ids, key(i), session)
+		if algo == "pedersen" {
+			prev := verifrt.Node()
+			verifrt.SetNode(fmt.Sprintf("c%dn%d", cer, i))
+			pcfg := pedersen.NewConfig(ids[i], peers, t, session, 10*time.Second, nil)
+			nodes[i] = node{h: h, pcfg: pcfg, board: pedersen.NewBoard(ctx, h, pcfg, caster)}
+			verifrt.SetNode(prev)
+			continue
+		}
+		tp, err := dkg.VerifFrostTransport(h, peers, caster, t, vals)
 		if err != nil {
 			panic(err)
 		}
-		nodes[i] = node{h, tp}
+		nodes[i] = node{h: h, tp: tp}
 	}
 	var wg sync.WaitGroup
 	for i := 0; i < n; i++ {
@@ -112,13 +152,24 @@ func ceremony(ctx context.Context, c *kernel.Ctx, cer int) {
 			verifrt.Sleep(time.Duration(verifrt.Intn("w", 100)) * time.Millisecond) // nodes start the rounds at different times
 			cctx, ccancel := context.WithTimeout(ctx, 10*time.Minute)
 			defer ccancel()
-			results[me], errs[me] = dkg.VerifRunFrost(cctx, nodes[me].tp, vals, n, t, me+1, "dkg-ctx")
+			if algo == "pedersen" {
+				results[me], errs[me] = pedersen.RunDKG(cctx, nodes[me].pcfg, nodes[me].board, vals)
+			} else {
+				results[me], errs[me] = dkg.VerifRunFrost(cctx, nodes[me].tp, vals, n, t, me+1, "dkg-ctx")
+			}
 			verifrt.Note("node %d done err=%v", me, errs[me] != nil)
 		})
 	}
 	verifrt.WGWait(&wg)
 	for i, err := range errs {
 		if err != nil {
+			if stragglers > 0 {
+				// messages of an earlier ceremony reached this one: refusing to complete is a legitimate
+				// outcome (the statement is about successful ceremonies); only a ceremony that nothing
+				// disturbed must succeed
+				verifrt.Probe("ceremony-aborted-after-stale-messages")
+				return
+			}
 			c.Violate("C11", "ceremony-failed", "fault-free-ceremony-returned-error", "ceremony n=%d t=%d validators=%d: node %d returned %v", n, t, vals, i, err)
 			return
 		}
